@@ -13,7 +13,7 @@
       [ack_ranges_ok]           descending, Smallest <= Largest, disjoint and non-adjacent
       [pending tr]              receive time of the first accepted, still unacknowledged ack-eliciting app-data packet *)
 From Coq Require Import List ZArith Bool.
-From V Require Import Gen.Params RecvPH.Model RecvPH.ProofsHist RecvPH.ProofsAck RecvPH.ProofsDue RecvPH.ProofsDup RecvPH.ProofsMissing RecvPH.ProofsNonempty RecvPH.ProofsGap RecvPH.ProofsImmediate RecvPH.ProofsDupTrace RecvPH.ProofsTimer RecvPH.ProofsGlue.
+From V Require Import Gen.Params RecvPH.Model RecvPH.ProofsHist RecvPH.ProofsAck RecvPH.ProofsDue RecvPH.ProofsDup RecvPH.ProofsMissing RecvPH.ProofsNonempty RecvPH.ProofsGap RecvPH.ProofsImmediate RecvPH.ProofsDupTrace RecvPH.ProofsTimer RecvPH.ProofsGlue RecvPH.DupAlways.
 From V Require RunLoop.Model.
 Import ListNotations.
 Open Scope Z_scope.
@@ -277,6 +277,17 @@ Theorem C07_duplicate_always_handler : forall (ops : list op) sp q x,
   is_dup x q = true /\ snd (hist_recv x q) = false.
 Proof. exact handler_duplicate_always. Qed.
 Print Assumptions C07_duplicate_always_handler.
+
+(** the form exported to other units (coq/RecvPH/DupAlways.v: [dup_always], with the step-wise
+    interface [dup_inv] / [dup_inv_init] / [dup_inv_step] / [dup_always_step]): answered by the
+    handler's IsPotentiallyDuplicate at every encryption level of the space *)
+Theorem C07_dup_always : forall (ops : list op) sp q x lvl,
+  let h := fst (run newHandler ops) in
+  accepted (trace newHandler ops) sp q ->
+  hist_of h sp = Some x -> sp_of lvl = Some sp ->
+  h_is_dup h q lvl = RB true /\ is_dup x q = true /\ snd (hist_recv x q) = false.
+Proof. exact dup_always. Qed.
+Print Assumptions C07_dup_always.
 
 (** and at the connection glue: a packet whose number was accepted before in its (still existing)
     space never has its frames processed again *)
